@@ -116,6 +116,10 @@ class Check:
             sys.exit(3)
         docs = [{'text': c['text'], 'meta': c.get('meta', {})} for c in corpus_cases(self.pid, 'classify')]
         docs += [{'text': t, 'meta': m} for t, m in documents(tier, rng)]
+        base = [d for d in docs if d['text'].startswith('<')]
+        for _ in range(400 if tier == 'quick' else 4000):
+            d = rng.choice(base)
+            docs.append({'text': gens.mutate_doc(rng, d['text'], None, n=rng.randrange(1, 4)), 'meta': dict(d['meta'], kind='fuzzed')})
         texts = [d['text'] for d in docs]
         model = engine.classify_cases(texts)
         default = run_sub([], 'classify', texts)
